@@ -10,11 +10,15 @@ OUTPUT = "EngineFacts.v"
 def probe():
     import ply.lex
     import yaql
+    import threading
     eng = yaql.YaqlFactory().create()
     seen, depth = [], [0]
     orig = ply.lex.Lexer.token
+    owner = threading.get_ident()
 
     def tok(self):
+        if threading.get_ident() != owner:          # other threads (after a blocked probe was abandoned) are not probed
+            return orig(self)
         seen.append((depth[0], id(self)))
         if depth[0] == 0 and sum(1 for d, _ in seen if d == 0) == 2:
             depth[0] = 1
@@ -46,8 +50,22 @@ def probe():
             "engine_lexer_untouched": before == after}
 
 
+def probe_guarded(seconds=20.0):
+    """the probe in a helper thread: an engine that serialises its parses with a lock never returns from the re-entrant
+    parse (the parse waits for itself); then the fact cannot be established by this probe and is reported as false"""
+    import threading
+    box = []
+    th = threading.Thread(target=lambda: box.append(probe()), daemon=True)
+    th.start()
+    th.join(seconds)
+    if box:
+        return box[0]
+    # the helper thread stays stuck inside the patched Lexer.token; the patch only acts on that thread
+    return {"private": False, "outer_objs": 0, "inner_objs": 0, "engine_lexer_untouched": False, "blocked": True}
+
+
 def generate():
-    p = probe()
+    p = probe_guarded()
     return ("(* REGENERATED from /repo on every run by harness/gen_enginefacts.py *)\n"
             "Definition lexer_private : bool := %s.\n"
             "Definition engine_lexer_untouched : bool := %s.\n"
